@@ -1,0 +1,36 @@
+#pragma once
+// Observation hooks for external runtime monitors.
+// Everything in here is compiled only with -DSQFVM_RUNTIME_VERIF; without the
+// define SQFVM_VERIF_HOOK(...) expands to nothing and this header declares nothing.
+#ifdef SQFVM_RUNTIME_VERIF
+#include <cstddef>
+
+namespace sqf::runtime
+{
+    class runtime;
+    class context;
+    class instruction;
+}
+namespace sqf::runtime::verif
+{
+    struct hook_table
+    {
+        // execute_do entered; budget is the instruction budget of the slice and may be overwritten
+        void (*exec_enter)(sqf::runtime::runtime&, size_t& budget);
+        // execute_do left with the given result (cast of runtime::result)
+        void (*exec_leave)(sqf::runtime::runtime&, int result);
+        void (*before_instruction)(sqf::runtime::runtime&, sqf::runtime::context&, const sqf::runtime::instruction&);
+        void (*after_instruction)(sqf::runtime::runtime&, sqf::runtime::context&, const sqf::runtime::instruction&);
+        // a frame finished and was popped; forwarded tells whether it handed a value to its caller
+        void (*frame_done)(sqf::runtime::runtime&, sqf::runtime::context&, bool forwarded);
+        void (*action_enter)(sqf::runtime::runtime&, int action);
+        void (*action_leave)(sqf::runtime::runtime&, int action, int result);
+        // named point between two critical sections; monitors may delay the calling thread here
+        void (*failpoint)(sqf::runtime::runtime&, const char* name);
+    };
+    extern hook_table hooks;
+}
+#define SQFVM_VERIF_HOOK(NAME, ...) do { if (::sqf::runtime::verif::hooks.NAME) { ::sqf::runtime::verif::hooks.NAME(__VA_ARGS__); } } while (0)
+#else
+#define SQFVM_VERIF_HOOK(NAME, ...) do { } while (0)
+#endif
